@@ -73,6 +73,42 @@ def strip_comments(s):
     return re.sub(r"/\*.*?\*/", "", s, flags=re.S)
 
 
+def rename_words(text, mapping):
+    """rename identifiers (whole words); two-phase so that swaps work"""
+    for i, (old, _) in enumerate(mapping.items()):
+        text = re.sub(r"\b%s\b" % re.escape(old), "\x00%d\x00" % i, text)
+    for i, (_, new) in enumerate(mapping.items()):
+        text = text.replace("\x00%d\x00" % i, new)
+    return text
+
+
+def expand_local_usings(body):
+    """remove local `using X = T;` aliases from a function body and substitute them (textually, repeatedly)"""
+    body = strip_comments(body)
+    aliases = re.findall(r"\busing\s+(\w+)\s*=\s*([^;]+);", body)
+    body = re.sub(r"\busing\s+\w+\s*=\s*[^;]+;", "", body)
+    for _ in range(len(aliases) + 1):
+        for name, val in aliases:
+            body = re.sub(r"\b%s\b" % re.escape(name), val.strip(), body)
+    return body
+
+
+def inline_void_helpers(src, body_re):
+    """calls `name();` of parameterless private helpers `void name() [const] { BODY }` whose normalised BODY matches
+    body_re are replaced by BODY (each call by the nearest definition that follows it: the helpers of wrapper structs
+    are defined after their use); lets a `removeSelf()` extraction through"""
+    defs = [(m.start(), m.end(), m.group(1), m.group(2)) for m in re.finditer(r"void\s+(\w+)\s*\(\s*\)\s*(?:const\s*)?\{([^{}]*)\}", src)]
+    defs = [d for d in defs if re.fullmatch(body_re, BoolExpr.norm(d[3]))]
+    if not defs:
+        return src
+    out, prev = "", 0
+    for start, end, name, body in defs:
+        seg = src[prev:start]
+        out += re.sub(r"\b%s\(\);" % re.escape(name), body.strip(), seg) + src[start:end]
+        prev = end
+    return out + src[prev:]
+
+
 def single_return_expr(body):
     body = strip_comments(body).strip()
     m = re.fullmatch(r"return\s+(.*?);\s*", body, re.S)
@@ -196,9 +232,21 @@ def frag_anyid():
         "anyid_internal_::compareEqual(a.getValue(),b.getValue())": "veq",
         "anyid_internal_::compareLessThan(a.getValue(),b.getValue())": "vlt",
     }
-    eq = BoolExpr(single_return_expr(find_function_body(src, r"bool\s+operator\s*==\s*\(const\s+AnyId<Digester,\s*Storage>\s*&\s*a,\s*const\s+AnyId<Digester,\s*Storage>\s*&\s*b\)\s*\{")), atoms).parse()
-    lt = BoolExpr(single_return_expr(find_function_body(src, r"bool\s+operator\s*<\s*\(const\s+AnyId<Digester,\s*Storage>\s*&\s*a,\s*const\s+AnyId<Digester,\s*Storage>\s*&\s*b\)\s*\{")), atoms).parse()
-    hbody = single_return_expr(find_function_body(src, r"std::size_t\s+operator\(\)\(const\s+eventpp::AnyId<Digester,\s*Storage>\s*&\s*value\)\s*const\s+noexcept\s*\{"))
+    def op_body(opre):
+        """body of a two-parameter AnyId operator with its parameters renamed to a, b"""
+        sig = r"bool\s+operator\s*" + opre + r"\s*\(const\s+AnyId<Digester,\s*Storage>\s*&\s*(\w+),\s*const\s+AnyId<Digester,\s*Storage>\s*&\s*(\w+)\)\s*\{"
+        m = re.search(sig, src, re.S)
+        if not m:
+            raise ValueError("AnyId operator %s not found" % opre)
+        body = expand_local_usings(find_function_body(src, sig))
+        return rename_words(body, {m.group(1): "a", m.group(2): "b"} if (m.group(1), m.group(2)) != ("a", "b") else {})
+    eq = BoolExpr(single_return_expr(op_body("==")), atoms).parse()
+    lt = BoolExpr(single_return_expr(op_body("<")), atoms).parse()
+    hsig = r"std::size_t\s+operator\(\)\(const\s+eventpp::AnyId<Digester,\s*Storage>\s*&\s*(\w+)\)\s*const\s+noexcept\s*\{"
+    hm = re.search(hsig, src, re.S)
+    if not hm:
+        raise ValueError("std::hash<AnyId>::operator() not found")
+    hbody = single_return_expr(rename_words(expand_local_usings(find_function_body(src, hsig)), {hm.group(1): "value"}))
     hn = BoolExpr.norm(hbody)
     if hn != "eventpp::anyid_internal_::MakeHash<typenameeventpp::AnyId<Digester,Storage>::DigestType>()(value.getDigest())":
         raise ValueError("std::hash<AnyId> body not recognised: " + hn)
@@ -260,7 +308,8 @@ def frag_removers():
     """CounterRemover / ConditionalRemover wrapper bodies: `test; remove when due; call the wrapped listener`"""
     text = GEN_HEADER % "include/eventpp/utilities/counterremover.h, conditionalremover.h wrapper operator()"
     text += "namespace Evp.Gen.Remover\n\n"
-    src = strip_comments(read_src("include/eventpp/utilities/counterremover.h"))
+    rm = r"data->(dispatcher\.removeListener\(data->event,data->handle\)|callbackList\.remove\(data->handle\));"
+    src = inline_void_helpers(strip_comments(read_src("include/eventpp/utilities/counterremover.h")), rm)
     bodies = re.findall(r"CanInvoke<Callback, Args \.\.\.>::value, void>::type \{(.*?)\n\t\t\}", src, re.S)
     if len(bodies) != 2:
         raise ValueError("expected the two CounterRemover wrapper bodies, found %d" % len(bodies))
@@ -279,6 +328,11 @@ def frag_removers():
         if m:
             shapes.add(("B", m.group(1), int(m.group(3 - 1))))
             continue
+        # shape B with the branches swapped: if(count OP' T) { --count; } else { remove }  listener(...)
+        m = re.fullmatch(r"if\(data->triggerCount(>=|>|!=)(-?\d+)\)\{--data->triggerCount;\}else\{" + rm + r"\}" + call, n)
+        if m:
+            shapes.add(("B", {">": "<=", ">=": "<", "!=": "=="}[m.group(1)], int(m.group(2))))
+            continue
         raise ValueError("CounterRemover wrapper body not recognised: " + n)
     if len(shapes) != 1:
         raise ValueError("the two CounterRemover wrappers differ: %r" % (shapes,))
@@ -293,7 +347,7 @@ def frag_removers():
         text += "def call (c : Int) : Bool × Int := if c %s %d then (true, c) else (false, dec32 c)\n" % (CMP_LEAN[op], thr)
     text += "/-- the listener is removed (when due) before the wrapped listener is called, and the wrapped listener is called on every call -/\n"
     text += "def removeBeforeCall : Bool := true\n\n"
-    src2 = strip_comments(read_src("include/eventpp/utilities/conditionalremover.h"))
+    src2 = inline_void_helpers(strip_comments(read_src("include/eventpp/utilities/conditionalremover.h")), rm)
     bodies2 = re.findall(r"CanInvoke<Condition, Args\.\.\.>::value>::type(?:\s+const)?\s*\{(.*?)\n\t\t\}", src2, re.S)
     if len(bodies2) != 4:
         raise ValueError("expected four ConditionalRemover wrapper bodies, found %d" % len(bodies2))
@@ -602,6 +656,16 @@ class PtrStmts:
             c = self.ptr()
             self.eat(")")
             return "(.whileNN %s %s)" % (c, self.block())
+        if self.peek() == "for":
+            # for(init; p; step) { body }  ==  init; while(p) { body; step }
+            self.eat()
+            self.eat("(")
+            init = self.assignment(";")
+            c = self.ptr()
+            self.eat(";")
+            step = self.assignment(")")
+            body = self.block()
+            return "(.seq %s (.whileNN %s %s))" % (init, c, step if body == ".skip" else "(.seq %s %s)" % (body, step))
         if self.peek() == "{":
             # a scope (with or without a lock_guard on the list mutex): sequential semantics
             return self.block()
@@ -610,6 +674,9 @@ class PtrStmts:
             self.eat(";")
             self.locked = True
             return ".skip"
+        return self.assignment(";")
+
+    def assignment(self, end):
         if self.peek() == "NodePtr":
             self.eat()          # declaration of a local pointer with initialiser: it becomes pointer variable 0
             if self.peek() not in self.VARS and len(self.VARS) == 0:
@@ -622,10 +689,10 @@ class PtrStmts:
                 v = "0"
             if not v.isdigit():
                 raise ValueError("counter value expected, found %r" % v)
-            self.eat(";")
+            self.eat(end)
             return "(.setCounter %s %s)" % (p, v)
         r = self.ptr()
-        self.eat(";")
+        self.eat(end)
         return "(.assign %s %s)" % (p, r)
 
 
@@ -645,23 +712,38 @@ def frag_cl():
             raise ValueError("trailing tokens in " + name)
     # the conditions, as functions of (node counter, captured counter): 0 is removedCounter
     atoms = {"node->counter!=removedCounter": "(nc != 0)", "counter>=node->counter": "decide (cap ≥ nc)",
-             "node": "nonnull", "beforeNode": "nonnull", "beforeNode->counter!=removedCounter": "(nc != 0)"}
+             "node->counter==removedCounter": "(nc == 0)", "node->counter<=counter": "decide (cap ≥ nc)",
+             "node": "nonnull", "beforeNode": "nonnull", "beforeNode->counter!=removedCounter": "(nc != 0)",
+             "beforeNode->counter==removedCounter": "(nc == 0)"}
+
+    def inline_bool_helpers(cond):
+        """`name(arg)` -> the returned expression of `[static] bool name(const NodePtr & p) [const] { return E; }` with p := arg"""
+        def sub(m):
+            sig = r"bool\s+%s\s*\(\s*(?:const\s+)?NodePtr\s*&\s*(\w+)\s*\)\s*(?:const\s*)?\{" % re.escape(m.group(1))
+            hm = re.search(sig, src, re.S)
+            if not hm:
+                return m.group(0)
+            e = single_return_expr(find_function_body(src, sig))
+            return "(" + rename_words(e, {hm.group(1): m.group(2)}) + ")"
+        return re.sub(r"\b(do\w+|is\w+)\s*\(\s*(\w+)\s*\)", sub, cond)
     body = find_function_body(src, r"bool\s+doForEachIf\s*\(\s*F\s*&&\s*f\s*\)\s*const\s*\{")
     m = re.search(r"while\s*\(\s*node\s*\)\s*\{(?:\s*EVENTPP_VERIF_POINT\([^)]*\);)?\s*if\s*\((.*?)\)\s*\{\s*if\s*\(\s*!\s*f\s*\(\s*node\s*\)\s*\)", body, re.S)
     if not m:
         raise ValueError("doForEachIf loop not recognised")
-    guard = BoolExpr(m.group(1), atoms).parse()
+    guard = BoolExpr(inline_bool_helpers(m.group(1)), atoms).parse()
     body = find_function_body(src, r"bool\s+remove\s*\(\s*const\s+Handle\s*&\s*handle\s*\)\s*\{")
     m = re.search(r"if\s*\((.*?)\)\s*\{\s*doFreeNode\s*\(\s*node\s*\)\s*;\s*return\s+true\s*;\s*\}\s*return\s+false\s*;", body, re.S)
     if not m:
         raise ValueError("remove() not recognised")
-    rem = BoolExpr(m.group(1), atoms).parse()
+    rem = BoolExpr(inline_bool_helpers(m.group(1)), atoms).parse()
     # insert(): the test that chooses between doInsert and doAppend, and whether it is made under the list mutex
     body = BoolExpr.norm(re.sub(r"EVENTPP_VERIF_POINT\([^)]*\);", "", find_function_body(src, r"Handle\s+insert\s*\(\s*const\s+Callback\s*&\s*callback\s*,\s*const\s+Handle\s*&\s*before\s*\)\s*\{")))
-    m = re.search(r"if\(([^{};]*?)\)\{doInsert\(node,beforeNode\);\}else\{doAppend\(node\);\}", body)
-    if not m:
+    m = re.search(r"if\(([^{};]*?)\)\{(doInsert\(node,beforeNode\)|doAppend\(node\));\}else\{(doInsert\(node,beforeNode\)|doAppend\(node\));\}", body)
+    if not m or m.group(2) == m.group(3):
         raise ValueError("insert() not recognised: " + body)
-    ins = BoolExpr(m.group(1), atoms).parse()
+    ins = BoolExpr(inline_bool_helpers(m.group(1)), atoms).parse()
+    if m.group(2).startswith("doAppend"):
+        ins = "(!%s)" % ins          # the branches are the other way round
     lockpos = body.find("std::lock_guard<Mutex>lockGuard(mutex);")
     ins_locked = 0 <= lockpos < m.start()
     # the block that holds the lock must be the one that contains the test (no closing brace in between)
@@ -669,10 +751,10 @@ def frag_cl():
         ins_locked = False
     # getNextCounter(): `Counter result = ++currentCounter; if(result == 0) { <reset loop> result = ++currentCounter; } return result;`
     body = find_function_body(src, r"Counter\s+getNextCounter\s*\(\s*\)\s*\{")
-    m = re.fullmatch(r"\s*Counter\s+result\s*=\s*\+\+currentCounter\s*;\s*;?\s*if\s*\(\s*result\s*==\s*0\s*\)\s*\{(.*)result\s*=\s*\+\+currentCounter\s*;\s*\}\s*return\s+result\s*;\s*", body, re.S)
+    m = re.fullmatch(r"\s*Counter\s+(\w+)\s*=\s*\+\+currentCounter\s*;\s*;?\s*if\s*\(\s*\1\s*==\s*0\s*\)\s*\{(.*)\1\s*=\s*\+\+currentCounter\s*;\s*\}\s*return\s+\1\s*;\s*", body, re.S)
     if not m:
         raise ValueError("getNextCounter() not recognised")
-    pw = PtrStmts(m.group(1), params=[])
+    pw = PtrStmts(m.group(2), params=[])
     out["wrapReset"] = pw.stmts()
     if pw.peek() is not None:
         raise ValueError("trailing tokens in the wrap branch of getNextCounter")
